@@ -133,7 +133,9 @@ class ProtocolHandler:
         result = {
             "protocolVersion": protocol_version,
             "serverInfo": self.server_info.model_dump(),
-            "capabilities": self.capabilities.model_dump(exclude_none=True),
+            "capabilities": self.capabilities.model_dump(
+                exclude_none=True, by_alias=True
+            ),
         }
 
         msg_id = getattr(message, "id", None)
